@@ -39,6 +39,43 @@ Theorem C01_empty_collections : forall pv t k x,
 Proof. exact empty_collections. Qed.
 Print Assumptions C01_empty_collections.
 
+(* a decoded map is readable through the Mapping API: the decoded key re-serializes (OrderedMapSerializedKey, inner
+   protocol version) to exactly the bytes it arrived as -- for keys that are not null and not tuples written short *)
+Theorem C01_map_keys_found : forall pv kt k kb,
+  wf_type kt = true -> py_repr kt k = true -> k <> VNull -> norm kt k = k ->
+  to_binary (inner pv) kt k = Some kb ->
+  exists k', from_binary (inner pv) kt kb = Some k' /\ key_lookup_bytes pv kt k' = Some kb.
+Proof. exact map_keys_found. Qed.
+Print Assumptions C01_map_keys_found.
+
+(* finding C01-3 (fixed): with the OUTER protocol version a list-typed key decoded at v2 is never found *)
+Theorem C01_map_key_outer_version_refuted :
+  to_binary (inner 2) (TList (TScalar SInt)) (VSeq [VInt 1; VInt 2]) = Some [0;0;0;2; 0;0;0;4;0;0;0;1; 0;0;0;4;0;0;0;2] /\
+  key_lookup_bytes_outer 2 (TList (TScalar SInt)) (VSeq [VInt 1; VInt 2]) = Some [0;2; 0;4;0;0;0;1; 0;4;0;0;0;2] /\
+  key_lookup_bytes 2 (TList (TScalar SInt)) (VSeq [VInt 1; VInt 2]) = Some [0;0;0;2; 0;0;0;4;0;0;0;1; 0;0;0;4;0;0;0;2].
+Proof. repeat split; reflexivity. Qed.
+Print Assumptions C01_map_key_outer_version_refuted.
+
+(* finding C01-4 (open): without the two exclusions the statement fails -- a tuple key written with fewer items comes back
+   padded and re-serializes to other bytes; a null key cannot be serialized at all (raises) *)
+Definition C01_map_keys_full_statement : Prop :=
+  forall pv kt k kb, wf_type kt = true -> py_repr kt k = true ->
+    enc_elem (inner pv) (serialize (inner pv) kt) k = Some kb ->
+    exists k' l, dec_elem (inner pv) (wrap_from (empty_ok kt) (deserialize (inner pv) kt)) (Some kb) = Some (k', Some []) /\
+                 key_lookup_bytes pv kt k' = Some l /\ enc_elem (inner pv) (fun _ => Some l) k' = Some kb.
+Theorem C01_map_keys_refuted : ~ C01_map_keys_full_statement.
+Proof.
+  intro H.
+  destruct (H 4 (TTuple [TScalar SInt; TScalar SInt]) (VSeq [VInt 1]) [0;0;0;8; 0;0;0;4;0;0;0;1] eq_refl eq_refl eq_refl)
+    as (k' & l & D & L & E).
+  vm_compute in D. inversion D; subst k'. vm_compute in L. inversion L; subst l. vm_compute in E. discriminate.
+Qed.
+Print Assumptions C01_map_keys_refuted.
+
+Theorem C01_map_null_key_refuted : key_lookup_bytes 4 (TScalar SText) VNull = None.
+Proof. reflexivity. Qed.
+Print Assumptions C01_map_null_key_refuted.
+
 (* the side conditions are needed: without wf_type / py_repr the statement fails on the model (and on the driver:
    checks/C01.py counts these cases as 'outside_statement'): a Reversed/Frozen wrapper around text maps '' to None,
    an empty tuple value is written as b'' and read back as None *)
